@@ -342,7 +342,10 @@ def classify(c, code):
     if code == 2 and any(s["k"] == "lra" and s.get("fn") == "absent_over_time" for s in c["chain"]):
         return "absent-first-bucket"
     if code in (2, 3) and "label_format" in kinds:
-        return "label-format-stale-fingerprint"
+        # the stale fingerprint survives only when no later stage recomputes it for every entry
+        last = max(i for i, k in enumerate(kinds) if k == "label_format")
+        if not any(k in ("by_without", "parser") for k in kinds[last + 1:]):
+            return "label-format-stale-fingerprint"
     if code == 3 and collide_kv(c):
         return "hash-no-separator"
     return None
